@@ -89,6 +89,7 @@ type helper struct {
 }
 
 type planner struct {
+	rewrote   map[*types.Var]bool // lookup tables some read of which was rewritten
 	keepAlive map[*ast.File]string
 	res       *Result
 	pkg       *packages.Package
@@ -563,10 +564,29 @@ func (pl *planner) dropDeadClosures(body *ast.BlockStmt) {
 		h := pl.closures[v]
 		return v != nil && h != nil && h.inl == h.uses && h.inl > 0
 	}
+	// parallel forms (`f, g := func…, func…`, `_, _ = f, g`): drop pair by pair
+	thin := func(s ast.Stmt) bool {
+		as, ok := s.(*ast.AssignStmt)
+		if !ok || len(as.Lhs) != len(as.Rhs) || len(as.Lhs) < 2 {
+			return false
+		}
+		var lhs, rhs []ast.Expr
+		for i := range as.Lhs {
+			one := &ast.AssignStmt{Lhs: []ast.Expr{as.Lhs[i]}, Tok: as.Tok, Rhs: []ast.Expr{as.Rhs[i]}}
+			if !dead(one) {
+				lhs, rhs = append(lhs, as.Lhs[i]), append(rhs, as.Rhs[i])
+			}
+		}
+		if len(lhs) == 0 {
+			return true
+		}
+		as.Lhs, as.Rhs = lhs, rhs
+		return false
+	}
 	filter := func(list *[]ast.Stmt) {
 		var out []ast.Stmt
 		for _, s := range *list {
-			if !dead(s) {
+			if !dead(s) && !thin(s) {
 				out = append(out, s)
 			}
 		}
@@ -601,18 +621,22 @@ func (pl *planner) findClosures() {
 					called[id] = true
 				}
 			case *ast.AssignStmt:
-				if x.Tok == token.ASSIGN && len(x.Lhs) == 1 && len(x.Rhs) == 1 {
-					if l, ok := x.Lhs[0].(*ast.Ident); ok && l.Name == "_" {
-						if r, ok := x.Rhs[0].(*ast.Ident); ok {
-							blank[r] = true
+				if x.Tok == token.ASSIGN && len(x.Lhs) == len(x.Rhs) {
+					for i := range x.Lhs {
+						if l, ok := x.Lhs[i].(*ast.Ident); ok && l.Name == "_" {
+							if r, ok := x.Rhs[i].(*ast.Ident); ok {
+								blank[r] = true
+							}
 						}
 					}
 				}
-				if x.Tok == token.DEFINE && len(x.Lhs) == 1 && len(x.Rhs) == 1 {
-					if id, ok := x.Lhs[0].(*ast.Ident); ok {
-						if lit, ok := x.Rhs[0].(*ast.FuncLit); ok {
-							if v, ok := info.Defs[id].(*types.Var); ok {
-								cand[v] = lit
+				if x.Tok == token.DEFINE && len(x.Lhs) == len(x.Rhs) {
+					for i := range x.Lhs {
+						if id, ok := x.Lhs[i].(*ast.Ident); ok {
+							if lit, ok := x.Rhs[i].(*ast.FuncLit); ok {
+								if v, ok := info.Defs[id].(*types.Var); ok {
+									cand[v] = lit
+								}
 							}
 						}
 					}
